@@ -94,33 +94,70 @@ fn branches(cfg: &Cfg) -> String {
     format!("(branches {})", parts.join(" "))
 }
 
-fn finding(r: &Report) -> String {
+/// One report of the pass -> `(CODE KIND NAMEHEX START END)`.
+///
+/// The KIND is derived from the report CODE and from where the report points (third audit: it used to be
+/// derived from the English wording, so that a re-worded message became kind `other` and was judged by
+/// nobody):
+///   CS0007 -> unusedparam;  CA01 -> unconstrained;
+///   CS0006 -> unusedvar if the primary label is the location of a definition of the taint analysis
+///             (`TaintAnalysis::definitions`), unusedsig if it is the location of a signal declaration;
+///   CS0008 -> paramnse if the definition at the label is a parameter, else varnse.
+/// The displayed NAME is the name of the definition / declaration at that location; the text between the
+/// first pair of backquotes of the message is only used to choose among several entries at one location
+/// (parameters share the location of the parameter list). Anything else is kind `other`, which the check
+/// counts and reports.
+fn finding(r: &Report, cfg: &Cfg, taint: &program_analysis::taint_analysis::TaintAnalysis) -> String {
     let msg = r.message();
-    let kind = if msg.starts_with("The variable `") {
-        "unusedvar"
-    } else if msg.starts_with("The parameter `") && msg.ends_with("is never read.") {
-        "unusedparam"
-    } else if msg.starts_with("The value assigned to `") {
-        "varnse"
-    } else if msg.starts_with("The parameter `") {
-        "paramnse"
-    } else if msg.starts_with("The signal") && msg.contains("not used by") {
-        "unusedsig"
-    } else if msg.starts_with("The signal") && msg.contains("not constrained by") {
-        "unconstrained"
-    } else {
-        "other"
+    let quoted = msg.split('`').nth(1).unwrap_or("");
+    let quoted = quoted.split(|c| c == '[' || c == '.').next().unwrap_or("").to_string();
+    let range = r.primary().first().map(|l| (l.range.start, l.range.end));
+    // candidates at the label: (displayed name, is a parameter, is a definition)
+    let mut cands: Vec<(String, bool, bool)> = Vec::new();
+    if let Some((a, b)) = range {
+        for d in taint.definitions() {
+            if d.meta().start() == a && d.meta().end() == b {
+                cands.push((d.name().name().to_string(), cfg.parameters().contains(d.name()), true));
+            }
+        }
+        for (n, d) in cfg.declarations().iter() {
+            if matches!(d.variable_type(), VariableType::Signal(_, _))
+                && d.file_location().start == a
+                && d.file_location().end == b
+            {
+                cands.push((n.name().to_string(), false, false));
+            }
+        }
+    }
+    let code = r.id();
+    let want_def = |c: &(String, bool, bool)| match code.as_str() {
+        "CS0007" => c.1 && c.2,
+        "CS0008" => c.2,
+        "CA01" => !c.2,
+        _ => true,
     };
-    // the displayed variable: text between the first pair of backquotes, cut at the first access
-    let name = msg.split('`').nth(1).unwrap_or("");
-    let name = name.split(|c| c == '[' || c == '.').next().unwrap_or("");
-    let (s, e) = match r.primary().first() {
-        Some(l) => (l.range.start.to_string(), l.range.end.to_string()),
+    let mut sel: Vec<&(String, bool, bool)> = cands.iter().filter(|c| want_def(c)).collect();
+    if sel.iter().any(|c| c.0 == quoted) {
+        sel.retain(|c| c.0 == quoted);
+    }
+    // CS0006 at a location that is both: a definition wins iff the message names it
+    let chosen = sel.first().cloned();
+    let (kind, name) = match (code.as_str(), chosen) {
+        ("CS0007", Some(c)) => ("unusedparam", c.0.clone()),
+        ("CA01", Some(c)) => ("unconstrained", c.0.clone()),
+        ("CS0006", Some(c)) if c.2 => ("unusedvar", c.0.clone()),
+        ("CS0006", Some(c)) => ("unusedsig", c.0.clone()),
+        ("CS0008", Some(c)) if c.1 => ("paramnse", c.0.clone()),
+        ("CS0008", Some(c)) => ("varnse", c.0.clone()),
+        _ => ("other", quoted.clone()),
+    };
+    let (s, e) = match range {
+        Some((a, b)) => (a.to_string(), b.to_string()),
         None => ("-".to_string(), "-".to_string()),
     };
     // parameters: the location is the parameter list, which the IR dump does not carry
     let (s, e) = if kind == "unusedparam" || kind == "paramnse" { ("-".to_string(), "-".to_string()) } else { (s, e) };
-    format!("({} {} {} {} {})", r.id(), kind, irdump::hexs(name), s, e)
+    format!("({} {} {} {} {})", r.id(), kind, irdump::hexs(&name), s, e)
 }
 
 fn analyse(cfg: &Cfg) -> String {
@@ -239,11 +276,11 @@ fn analyse(cfg: &Cfg) -> String {
     }
 
     let reports = run_side_effect_analysis(cfg);
-    let mut findings: Vec<String> = reports.iter().map(finding).collect();
+    let mut findings: Vec<String> = reports.iter().map(|r| finding(r, cfg, &taint)).collect();
     findings.sort();
 
     format!(
-        "(result (universe {}) (taint {}) (closure {}) (cons {}) (ccl {}) (constrained {}) (defs {}) (decls {}) (sinks {}) (findings {}))",
+        "(result (universe {}) (taint {}) (closure {}) (cons {}) (ccl {}) (constrained {}) (defs {}) (decls {}) (sinks {}) (bset {}) (findings {}))",
         universe.keys().cloned().collect::<Vec<_>>().join(" "),
         t1.join(" "),
         tc.join(" "),
@@ -253,11 +290,93 @@ fn analyse(cfg: &Cfg) -> String {
         defs.join(" "),
         decls,
         set_str(sinks.iter()),
+        // the names the real analysis finds tainted by an input or output signal (`exported_sinks`)
+        set_str(exported_sinks.iter()),
         findings.join(" ")
     )
 }
 
+fn finish(cfg: Cfg) -> String {
+    let cfg = match verif_harness::guarded(|| cfg.into_ssa()) {
+        None => return "(panic ssa)".to_string(),
+        Some(Err(_)) => return "(ssaerr)".to_string(),
+        Some(Ok(c)) => c,
+    };
+    match verif_harness::guarded(|| format!("(ok {} {} {} {})", irdump::cfg(&cfg), branches(&cfg), analyse(&cfg), irdump::idoms(&cfg))) {
+        None => "(panic analysis)".to_string(),
+        Some(s) => s,
+    }
+}
+
+/// `file:<hex>`: a whole source file (the analysed definition FIRST, helper templates after it, so that
+/// byte offsets are those of the definition alone). The REAL `remove_syntactic_sugar` runs on the
+/// definition maps as the program library builds them (anonymous components, tuples, `_`), then the
+/// first definition goes through into_cfg / into_ssa / the analyses like a single definition.
+fn run_file(hex: &str) -> String {
+    use parser::verif::{parse_source, remove_syntactic_sugar};
+    use program_structure::file_definition::FileLibrary;
+    use program_structure::function_data::FunctionData;
+    use program_structure::template_data::TemplateData;
+    use std::collections::HashMap;
+    let src = irdump::unhex(hex.trim());
+    let mut file_library = FileLibrary::new();
+    let file_id = file_library.add_file("memory.circom".to_string(), src.clone(), true);
+    let ast = match verif_harness::guarded(|| parse_source(&src, file_id)) {
+        None => return "(panic parse)".to_string(),
+        Some(Err(_)) => return "(parseerr)".to_string(),
+        Some(Ok(ast)) => ast,
+    };
+    let mut templates: HashMap<String, TemplateData> = HashMap::new();
+    let mut functions: HashMap<String, FunctionData> = HashMap::new();
+    let mut elem_id = 0;
+    let mut first: Option<(bool, String)> = None;
+    for definition in ast.definitions {
+        match definition {
+            Definition::Function { name, args, arg_location, body, .. } => {
+                first.get_or_insert((false, name.clone()));
+                functions.insert(
+                    name.clone(),
+                    FunctionData::new(name, file_id, body, args.len(), args, arg_location, &mut elem_id),
+                );
+            }
+            Definition::Template { name, args, arg_location, body, parallel, is_custom_gate, .. } => {
+                first.get_or_insert((true, name.clone()));
+                templates.insert(
+                    name.clone(),
+                    TemplateData::new(name, file_id, body, args.len(), args, arg_location, &mut elem_id, parallel, is_custom_gate),
+                );
+            }
+        }
+    }
+    let mut reports = ReportCollection::new();
+    let (templates, functions) =
+        match verif_harness::guarded(|| remove_syntactic_sugar(&templates, &functions, &file_library, &mut reports)) {
+            None => return "(panic sugar)".to_string(),
+            Some(r) => r,
+        };
+    let mut reports = ReportCollection::new();
+    let cfg = match first {
+        Some((true, name)) => match templates.get(&name) {
+            Some(t) => verif_harness::guarded(|| t.into_cfg(&Curve::default(), &mut reports)),
+            None => return "(sugarerr)".to_string(),
+        },
+        Some((false, name)) => match functions.get(&name) {
+            Some(f) => verif_harness::guarded(|| f.into_cfg(&Curve::default(), &mut reports)),
+            None => return "(sugarerr)".to_string(),
+        },
+        None => return "(parseerr)".to_string(),
+    };
+    match cfg {
+        None => "(panic cfg)".to_string(),
+        Some(Err(_)) => "(cfgerr)".to_string(),
+        Some(Ok(c)) => finish(c),
+    }
+}
+
 fn run(line: &str) -> String {
+    if let Some(hex) = line.trim().strip_prefix("file:") {
+        return run_file(hex);
+    }
     let src = irdump::unhex(line.trim());
     let mut def = match verif_harness::guarded(|| parse_definition(&src)) {
         None => return "(panic parse)".to_string(),
@@ -278,15 +397,7 @@ fn run(line: &str) -> String {
         Some(Err(_)) => return "(cfgerr)".to_string(),
         Some(Ok(c)) => c,
     };
-    let cfg = match verif_harness::guarded(|| cfg.into_ssa()) {
-        None => return "(panic ssa)".to_string(),
-        Some(Err(_)) => return "(ssaerr)".to_string(),
-        Some(Ok(c)) => c,
-    };
-    match verif_harness::guarded(|| format!("(ok {} {} {} {})", irdump::cfg(&cfg), branches(&cfg), analyse(&cfg), irdump::idoms(&cfg))) {
-        None => "(panic analysis)".to_string(),
-        Some(s) => s,
-    }
+    finish(cfg)
 }
 
 fn main() {
